@@ -1,0 +1,66 @@
+//go:build verif
+
+package ctlog
+
+import (
+	"context"
+	"crypto/ecdsa"
+
+	"filippo.io/sunlight"
+)
+
+// Export hooks for the out-of-tree verification harness. This file only adds
+// exported aliases for unexported identifiers; it is compiled only with
+// -tags verif.
+
+func VerifSetClock(f func() int64) { timeNowUnixMilli = f }
+
+func VerifSetPause(f func()) { testingOnlyPauseSequencing = f }
+
+func (l *Log) VerifSequence(ctx context.Context) error { return l.sequence(ctx) }
+
+type VerifWaitFunc = waitEntryFunc
+
+func (l *Log) VerifAddLeaf(ctx context.Context, e *PendingLogEntry, lowPriority bool) (VerifWaitFunc, string) {
+	return l.addLeafToPool(ctx, e, lowPriority)
+}
+
+func (e *PendingLogEntry) VerifAsLogEntry(idx, timestamp int64) *sunlight.LogEntry {
+	return e.asLogEntry(idx, timestamp)
+}
+
+func VerifCacheHash(cert []byte, isPrecert bool, ikh [32]byte) [32]byte {
+	return computeCacheHash(cert, isPrecert, ikh)
+}
+
+func VerifDigitallySign(k *ecdsa.PrivateKey, msg []byte) ([]byte, error) {
+	return digitallySign(k, msg)
+}
+
+func VerifSignTreeHead(c *Config, n int64, hash [32]byte, time int64) ([]byte, error) {
+	t := treeWithTimestamp{Time: time}
+	t.N = n
+	t.Hash = hash
+	return signTreeHead(c, t)
+}
+
+func VerifOpenCheckpoint(c *Config, b []byte) (sunlight.Checkpoint, int64, error) {
+	return openCheckpoint(c, b)
+}
+
+func VerifStagingPath(n int64, hash [32]byte) string {
+	t := treeWithTimestamp{}
+	t.N = n
+	t.Hash = hash
+	return stagingPath(t.Tree)
+}
+
+func (l *Log) VerifTree() (n int64, hash [32]byte, time int64) {
+	return l.tree.N, l.tree.Hash, l.tree.Time
+}
+
+var (
+	VerifErrFatal    = errFatal
+	VerifErrPoolFull = errPoolFull
+	VerifErrEvicted  = errEvicted
+)
